@@ -222,4 +222,26 @@ example : splitWriters exSplit1 = ["Sort"] ∧ splitWriters exSplit2 = ["Sort"] 
 theorem unlocked_only_outside_point_ops :
     all.all (fun T => (unlockedMethods T).all (fun m => !isPointOp T m)) = true := by decide
 
+/-- exported methods — point operation or not — that *write* a shared field while the instance lock is not
+    held, in their own body or in an own method they call while not holding it (a pre-sizing `reserve()` /
+    `rehash()` in front of a loop of locked `Put`s) -/
+def unlockedWriters (T : TypeFacts) : List String :=
+  ((T.methods.filter (·.exported)).filter (fun M => (freeAccesses T T.fuel M.name).any (·.write))).map (·.name)
+
+/-- **no_unlocked_writes.**  No exported method of a collection type, whole-structure operations included
+    (`PutAll`, `ToObject`, `Sort`, enumerator constructors …), writes the structure outside the lock: what
+    `unlocked_only_outside_point_ops` tolerates outside the point operations are reads only.  (A bulk
+    operation that grows the table without the lock loses the keys of point operations that complete
+    meanwhile.) -/
+theorem no_unlocked_writes : all.all (fun T => (unlockedWriters T).isEmpty) = true := by decide
+
+/-- `PutAll` = unlocked helper `reserve` (writes `count`'s neighbours without the lock) + a loop of `Put`s -/
+def exReserve : TypeFacts :=
+  { exSplit1 with methods := [exMethod "Put" true true true [] [] true,
+      { exMethod "reserve" false false false [] [] false with accHeld := [], accFree := [⟨"count", "count", true⟩] },
+      exMethod "PutAll" true false false [] ["reserve", "Put"] false] }
+
+/-- not vacuous: the pre-sizing `PutAll` is flagged, a plain loop of `Put`s (and a split `Sort`) is not -/
+example : unlockedWriters exReserve = ["PutAll"] ∧ unlockedWriters exSplit2 = [] := by decide
+
 end C10Gen
